@@ -1,7 +1,7 @@
 (* TplLane.v -- executable glue for the TPL correspondence lane: the class-level
    templates instantiated at V := N with the tagging handlers the harness
    registers on the real converter.  No proofs. *)
-From V.Model Require Import Base Templates.
+From V.Model Require Import Base Templates TdTemplates.
 
 (* handler of attribute n: small values pass and are tagged, large ones are rejected *)
 Definition hsN (n : N) (v : N) : result N :=
@@ -46,7 +46,9 @@ Definition eclass_of (e : errkind) : eclass :=
   | _ => COther
   end.
 
-Inductive outcome := XOk (i : list (N * N)) | XTuple (l : list N) | XErr (c : eclass) | XFuel.
+Inductive outcome := XOk (i : list (N * N)) | XTuple (l : list N) | XErr (c : eclass) | XFuel
+| XJunk    (* a copy of a non-dict payload was returned *)
+| XSame.   (* the very object passed in was returned *)
 
 Definition ovmap (l : list (N * fov)) (n : N) : fov := get_or l n neutral.
 
@@ -101,6 +103,7 @@ Definition outcome_eqb (a b : outcome) : bool :=
   | XTuple x, XTuple y => list_eqb N.eqb x y
   | XErr (CForbidden x), XErr (CForbidden y) => set_eqb x y
   | XErr CClassVal, XErr CClassVal | XErr CSyntax, XErr CSyntax | XErr COther, XErr COther => true
+  | XJunk, XJunk | XSame, XSame => true
   | _, _ => false
   end.
 
@@ -113,7 +116,28 @@ Definition same_accept (a b : outcome) : bool :=
   | _, _ => false
   end.
 
+Definition td_outcome (r : result (option (list (N * N)))) : outcome :=
+  match r with Ok (Some d) => XOk d | Ok None => XJunk | Err e => XErr (eclass_of e) | OutOfFuel => XFuel end.
+
+Definition td_splice_fails (unsafe : list N) (ovs : list (N * fov)) (fs : list tdfield) : bool :=
+  existsb (fun f => td_included (ovmap ovs) f && mem_N (td_key (ovmap ovs) f) unsafe) fs.
+
+Definition run_td_struct (unsafe : list N) (detailed : bool) (opt : tdopts) (ovs : list (N * fov)) (typed : list N)
+                         (fs : list tdfield) (p : payload) : outcome :=
+  if td_splice_fails unsafe ovs fs then XErr CSyntax else
+  let hs := fun n v => if mem_N n typed then hsN n v else hsId n v in
+  td_outcome (if detailed then td_detailed N opt (ovmap ovs) hs fs (obj_of p) else td_fast N opt (ovmap ovs) hs fs (obj_of p)).
+
+Definition run_td_unstruct (unsafe : list N) (opt : tdopts) (ovs : list (N * fov)) (typed : list N)
+                           (fs : list tdfield) (i : list (N * N)) : outcome :=
+  if existsb (fun f => mem_N (td_key (ovmap ovs) f) unsafe || mem_N (d_name f) unsafe) fs then XErr CSyntax else
+  let hs := fun n v => husN n v in
+  match td_unstruct N (ovmap ovs) hs (fun n => negb (mem_N n typed)) fs i with
+  | Ok (Some d) => XOk d | Ok None => XSame | Err e => XErr (eclass_of e) | OutOfFuel => XFuel end.
+
 Inductive tcase :=
+| TTd (detailed : bool) (opt : tdopts) (ovs : list (N * fov)) (typed : list N) (fs : list tdfield) (p : payload) (expect : outcome)
+| TTdUn (opt : tdopts) (ovs : list (N * fov)) (typed : list N) (fs : list tdfield) (i : list (N * N)) (expect : outcome)
 | TStruct (m : tmode) (opt : topts) (ovs : list (N * fov)) (typed : list N) (fs : list (field N)) (p : payload) (expect : outcome)
 | TUnstruct (m : umode) (opt : topts) (ovs : list (N * fov)) (typed : list N) (fs : list (field N)) (i : list (N * N)) (expect : outcome).
 
@@ -121,12 +145,16 @@ Definition tcase_ok (unsafe : list N) (recheck kw_last : bool) (c : tcase) : boo
   match c with
   | TStruct m opt ovs typed fs p x => outcome_eqb (run_struct unsafe recheck kw_last m opt ovs typed fs p) x
   | TUnstruct m opt ovs typed fs i x => outcome_eqb (run_unstruct unsafe m opt ovs typed fs i) x
+  | TTd dv opt ovs typed fs p x => outcome_eqb (run_td_struct unsafe dv opt ovs typed fs p) x
+  | TTdUn opt ovs typed fs i x => outcome_eqb (run_td_unstruct unsafe opt ovs typed fs i) x
   end.
 
 Definition tcase_model (unsafe : list N) (recheck kw_last : bool) (c : tcase) : outcome :=
   match c with
   | TStruct m opt ovs typed fs p _ => run_struct unsafe recheck kw_last m opt ovs typed fs p
   | TUnstruct m opt ovs typed fs i _ => run_unstruct unsafe m opt ovs typed fs i
+  | TTd dv opt ovs typed fs p _ => run_td_struct unsafe dv opt ovs typed fs p
+  | TTdUn opt ovs typed fs i _ => run_td_unstruct unsafe opt ovs typed fs i
   end.
 
 Fixpoint bad_tcases (unsafe : list N) (recheck kw_last : bool) (k : nat) (cs : list tcase) : list nat :=
